@@ -47,8 +47,13 @@ def finishStart (ctxs : List Ctx) (m : M) (res : StepRes) : StartRes :=
 def schedOne (sliceLen : Nat) (c : Ctx) (m : M) : M × StepRes :=
   let m0 := { m with ctx := c, spawned := [] }
   if c.suspended then
-    if c.wakeup ≤ m0.readClock.1 then slice sliceLen { m0.readClock.2 with ctx := { c with suspended := false } }
-    else (m0.readClock.2, .ok)
+    let now := m0.readClock.1
+    let m1 := m0.readClock.2
+    if c.wakeup ≤ now then slice sliceLen { m1 with ctx := { c with suspended := false } }
+    -- a script that sleeps executes no instruction: the time limit of the run is tested here as well
+    else if m1.maxRuntime != 0 && m1.runStart + m1.maxRuntime < now then
+      ({ (m1.log Diag.runtime_MaximumRuntimeReached) with exitReq := true, err := false }, .runtimeError)
+    else (m1, .ok)
   else slice sliceLen m0
 
 /-- has `terminate` been called on this context? -/
